@@ -201,7 +201,12 @@ class Ed25519Key(PKey):
         return m
 
     def verify_ssh_sig(self, data, msg):
-        if msg.get_text() != self.name:
+        try:
+            sig_algorithm = msg.get_text()
+        except UnicodeDecodeError:
+            # an algorithm name that is not even text is not one of ours
+            return False
+        if sig_algorithm != self.name:
             return False
 
         # A key loaded from a private key file only has a signing key; its
